@@ -504,6 +504,30 @@ pub fn drops<S: MlDsa>(seed: u64, rounds: usize, out: &mut Out) {
                 w.drop_key(h);
             }
         }
+        // keys whose in-memory image has a ZERO coefficient word in the middle of non-zero ones (about one key in a few
+        // thousand): an erasure that treats "already zero" specially would stop or skip there.  Found by scanning the
+        // object images of many random public-key strings and seeded key pairs.
+        if r == 0 {
+            fn zero_word_inside<T>(k: &T, skip: usize) -> bool {
+                let size = std::mem::size_of::<T>();
+                let p = k as *const T as *const u8;
+                let words: Vec<i32> = (skip..size).step_by(4).map(|o| unsafe { std::ptr::read_unaligned(p.add(o) as *const i32) }).collect();
+                words.chunks(256).any(|poly| { if let Some(z) = poly.iter().position(|w| *w == 0) { poly[z..].iter().any(|w| *w != 0) } else { false } })
+            }
+            let mut found = 0;
+            for i in 0..60000u32 {
+                if found >= 3 { break; }
+                if i % 8 == 0 {
+                    let mut xi = [0u8; 32]; xi[..4].copy_from_slice(&i.to_le_bytes()); xi[4] = 0xd6;
+                    let (pk, sk) = S::keygen_seed(&xi);
+                    if zero_word_inside(&sk, 128) || zero_word_inside(&pk, 96) { found += 1; let (hp, hs) = w.keygen_seed(&xi); let hd = w.derive(hs); for h in [hp, hs, hd] { w.drop_key(h); } }
+                } else {
+                    let b = p.bytes(S::PK_LEN);
+                    if let Ok(pk) = S::pk_from(&b) { if zero_word_inside(&pk, 96) { found += 1; if let Some(h) = w.deser("pk", &b) { let h2 = w.clone_key(h); w.drop_key(h); w.drop_key(h2); } } }
+                }
+            }
+            w.out.ev(json!({"ev": "Note", "what": format!("keys with an interior zero coefficient word found and dropped: {}", found)}));
+        }
     }
 }
 
